@@ -589,6 +589,9 @@ class DistributedNetwork(BaseManager):
     async def _on_session_initialized(self, event: SessionInitializedEvent):
         self._session = event.session
         await self._notify_server_of_parent()
+        # Children that connected, or a parent that was lost or chosen, while
+        # there was no session have not been advertised to the children
+        await self._notify_children_of_branch_values()
 
     async def _on_session_destroyed(self, event: SessionDestroyedEvent):
         self._session = None
